@@ -19,6 +19,7 @@ import (
 	"github.com/safing/portbase/api"
 	"github.com/safing/portbase/database"
 	"github.com/safing/portbase/database/record"
+	_ "github.com/safing/portbase/database/storage/badger"
 	_ "github.com/safing/portbase/database/storage/bbolt"
 	_ "github.com/safing/portbase/database/storage/fstree"
 	_ "github.com/safing/portbase/database/storage/hashmap"
@@ -58,6 +59,7 @@ type StepRec struct {
 	Timeout     bool   `json:"timeout,omitempty"`
 	HandleStuck bool   `json:"stuck,omitempty"`
 	NoReply     bool   `json:"noreply,omitempty"` // cancel of nothing without any reply (accepted)
+	Foreign     bool   `json:"foreign,omitempty"` // the wait ended because a reply with an operation ID of no request arrived
 	HadSub      bool   `json:"hadsub,omitempty"`
 }
 
@@ -137,6 +139,7 @@ type executor struct {
 	api   *api.DatabaseAPI
 	steps []StepRec
 	open  map[string]bool
+	ids   map[string]bool  // operation IDs used by the requests of the case so far
 	mark  func(msg []byte) // tells the parent which message is about to be handled
 }
 
@@ -193,6 +196,7 @@ func (x *executor) setup(backend string, shadow bool) error {
 	x.api = &a
 	x.steps = nil
 	x.open = map[string]bool{}
+	x.ids = map[string]bool{}
 	return nil
 }
 
@@ -256,6 +260,12 @@ func (x *executor) step(kind string, msg []byte, ref int) bool {
 	if req.Kind == kCancel {
 		sr.HadSub = x.api.VerifHasSub(req.OpID)
 	}
+	if req.HasOpID {
+		x.ids[req.OpID] = true
+	}
+	if req.Kind == kMalformed {
+		x.ids[""] = true
+	}
 	if x.mark != nil {
 		x.mark(msg)
 	}
@@ -285,29 +295,48 @@ func (x *executor) step(kind string, msg []byte, ref int) bool {
 			return false
 		}
 	}
+	// a reply whose operation ID belongs to no request of the case ends the wait:
+	// the reply the request is waiting for has probably been sent under a wrong ID
+	foreign := func() bool {
+		for _, e := range x.rec.snapshot(i0) {
+			if r := parseReply(e.Data); !x.ids[r.OpID] {
+				return true
+			}
+		}
+		return false
+	}
+	wait := func(pred func() bool) bool {
+		if x.waitUntil(x.guard, func() bool { return pred() || foreign() }) {
+			if !pred() {
+				sr.Foreign = true
+			}
+			return true
+		}
+		return false
+	}
 	ok := true
 	switch req.Kind {
 	case kMalformed:
 		ok = x.waitUntil(x.guard, func() bool { return x.rec.length() > i0 })
 	case kGet, kCreate, kUpdate, kInsert, kDelete:
-		ok = x.waitUntil(x.guard, func() bool { return own(anyReply) >= 1 })
+		ok = wait(func() bool { return own(anyReply) >= 1 })
 	case kQuery:
-		ok = x.waitUntil(x.guard, func() bool { return own(isType("done", "error")) >= 1 })
+		ok = wait(func() bool { return own(isType("done", "error")) >= 1 })
 	case kSub:
-		ok = x.waitUntil(x.guard, func() bool { return own(isType("error")) >= 1 || x.api.VerifHasSub(req.OpID) })
+		ok = wait(func() bool { return own(isType("error")) >= 1 || x.api.VerifHasSub(req.OpID) })
 		if ok {
-			x.open[req.OpID] = own(isType("error")) == 0
+			x.open[req.OpID] = own(isType("error")) == 0 && !sr.Foreign
 		}
 	case kQsub:
-		ok = x.waitUntil(x.guard, func() bool {
+		ok = wait(func() bool {
 			return own(isType("error")) >= 1 || (own(isType("done")) >= 1 && x.api.VerifHasSub(req.OpID))
 		})
 		if ok {
-			x.open[req.OpID] = own(isType("error")) == 0
+			x.open[req.OpID] = own(isType("error")) == 0 && !sr.Foreign
 		}
 	case kCancel:
 		if x.open[req.OpID] || sr.HadSub {
-			ok = x.waitUntil(x.guard, func() bool { return own(isType("done")) >= 1 })
+			ok = wait(func() bool { return own(isType("done")) >= 1 })
 			if ok {
 				delete(x.open, req.OpID)
 			}
